@@ -26,6 +26,10 @@ max_per_fn = int(opt("--max-per-fn", "6"))
 out_path = opt("--out", "/tmp/blindspots.json")
 ops_sel = (opt("--ops") or "").split(",") if "--ops" in sys.argv else None
 seed = int(opt("--seed", "1"))
+OPS2 = "--ops2" in args
+if OPS2: args.remove("--ops2")
+SWAP = "--swap" in args
+if SWAP: args.remove("--swap")
 replay = opt("--replay")          # a previous output file: re-run only its silent mutants (optionally filtered by --grep on file / fn / source line)
 grep = opt("--grep")
 
@@ -70,6 +74,25 @@ def candidates(line):
     m = re.search(r"\b(Release|Acquire|AcqRel|SeqCst)\b", code)
     if m and "use " not in code and "Ordering::{" not in code:
         yield "ordering", code[:m.start()] + "Relaxed" + code[m.end():]
+    # ---- second operator set (--ops2): sibling methods, argument swaps, literal shifts
+    if OPS2:
+        for a, b in (("fetch_add", "fetch_sub"), ("fetch_sub", "fetch_add"), ("overflowing_add", "overflowing_sub"), ("overflowing_sub", "overflowing_add"),
+                     ("wrapping_add", "wrapping_sub"), ("wrapping_sub", "wrapping_add"), (".max(", ".min("), (".min(", ".max("), ("is_ok()", "is_err()"), ("is_err()", "is_ok()"),
+                     ("is_some()", "is_none()"), ("is_none()", "is_some()"), (" && ", " || "), (" || ", " && "), ("break", "continue"), (".0", ".1"), (".1", ".0"),
+                     ("take_while", "skip_while"), ("publish_movable", "publish_movable_x")):
+            if b.endswith("_x"): continue
+            if a in code:
+                yield "sib:" + a.strip(), code.replace(a, b, 1)
+                break
+        m = re.search(r"compare_exchange(_weak)?\(([^,()]+(?:\([^()]*\))?[^,()]*),\s*([^,()]+(?:\([^()]*\))?[^,()]*),", code)
+        if m:
+            yield "cas-swap", code[:m.start(2)] + m.group(3).strip() + ", " + m.group(2).strip() + "," + code[m.end():]
+        m = re.search(r"(==|>|>=|<|<=|!=)\s*0\b(?!\.)", code)
+        if m:
+            yield "zero-one", code[:m.start()] + m.group(1) + " 1" + code[m.end():]
+        m = re.search(r"(\+|-)\s*1\b(?!\.)", code)
+        if m and "=>" not in code and "->" not in code:
+            yield "drop-one", code[:m.start()] + code[m.end():]
     # 7. early return of an Option / bool removed: `return None;` -> nothing is risky for typing; skip
     # 8. swap the arms' payload of a two-field tuple access
     # 9. drop an `unlock` / `wake` is covered by del-call
@@ -95,7 +118,7 @@ def main():
     if replay:
         prev = [m for m in json.load(open(replay)) if m["status"] == "silent"]
         if grep: prev = [m for m in prev if re.search(grep, m["file"] + " " + m["fn"] + " " + m["old"])]
-        sel_replay = [{k: m[k] for k in ("file", "line", "fn", "op", "old", "new")} for m in prev]
+        sel_replay = [{k: m[k] for k in ("file", "line", "fn", "op", "old", "new", "old2", "new2") if k in m} for m in prev]
     spans = fn_spans() if not replay else {}
     muts = []
     for path in (sorted(glob.glob("/repo/src/**/*.rs", recursive=True)) if not replay else []):
@@ -108,16 +131,22 @@ def main():
             if not fnk: continue
             for op, new in candidates(lines[i]):
                 if ops_sel and not any(op.startswith(o) for o in ops_sel): continue
+                if OPS2 and not (op.startswith("sib:") or op in ("cas-swap", "zero-one", "drop-one")): continue
                 if new != lines[i]:
                     muts.append({"file": rel, "line": i + 1, "fn": fnk, "op": op, "old": lines[i], "new": new})
+            if SWAP and i + 1 < end and owner(spans, rel, i + 2) == fnk:
+                a_, b_ = lines[i], lines[i + 1]
+                stmt = lambda l: re.match(r"^\s+[^/\s].*;\s*(//.*)?$", l) and not re.match(r"^\s*(let|return|break|continue|use)\b", l) and not LOG_RE.match(l) and l.count("(") == l.count(")")
+                if stmt(a_) and stmt(b_) and (len(a_) - len(a_.lstrip())) == (len(b_) - len(b_.lstrip())) and a_.strip() != b_.strip():
+                    muts.append({"file": rel, "line": i + 1, "fn": fnk, "op": "swap", "old": a_, "new": b_, "old2": b_, "new2": a_})
     # cap per function (deterministic sample), keep every del-call and ordering mutant
     rnd = random.Random(seed)
     by_fn = {}
     for m in muts: by_fn.setdefault(m["fn"], []).append(m)
     sel = []
     for k, l in sorted(by_fn.items()):
-        keep = [m for m in l if m["op"] in ("del-call", "ordering")]
-        rest = [m for m in l if m["op"] not in ("del-call", "ordering")]
+        keep = [m for m in l if m["op"] in ("del-call", "ordering", "swap", "cas-swap")]
+        rest = [m for m in l if m["op"] not in ("del-call", "ordering", "swap", "cas-swap")]
         rnd.shuffle(rest)
         sel += keep + rest[:max(0, max_per_fn - len(keep))]
     if replay: sel = sel_replay
@@ -132,6 +161,9 @@ def main():
             lines = open(p).read().split("\n")
             assert lines[m["line"] - 1] == m["old"]
             lines[m["line"] - 1] = m["new"]
+            if "new2" in m:
+                assert lines[m["line"]] == m["old2"]
+                lines[m["line"]] = m["new2"]
             open(p, "w").write("\n".join(lines))
             env = dict(os.environ, RM_REPO=repo, RM_EVID=os.path.join(d, "ev"))
             res = {}
